@@ -141,6 +141,11 @@ impl<'a> Lexer<'a> {
         if base == 10 && c.is_ascii_digit() && self.s.at(is_identifier_start) {
             return self.identifier(start);
         }
+        // `0b` / `0x` not followed by a digit of that base is not a number but a
+        // digit-leading identifier: `0b`, `0x`, `0b2`, `0xg`, `0x_1`
+        if base != 10 && self.s.cursor() == start + 2 {
+            return self.identifier(start);
+        }
 
         let number = self.s.get(start..self.s.cursor());
         if interpret_number(number).is_none() {
